@@ -226,7 +226,7 @@ UNITS = [
          enforce=['all_attributes', 'last_handle_index', 'ca_call', 'ca_ctor', 'check_size_and_handle_range_'],
          replace=['ACCESS', 'handle_by_index', 'first_index_by_handle', 'filter_call', 'iter_call', 'last_handle_index', 'error_response5_', 'error_response4_']),
 ]
-for _name, _d, _t in (('read_by_type_handler', ['MTU_MAX=48', 'N_MAX=12'], ['MTU_MAX=128', 'N_MAX=32']), ('read_by_type_handler_wide', ['MTU_MAX=300', 'N_MAX=4'], ['MTU_MAX=600', 'N_MAX=8'])):
+for _name, _d, _t in (('read_by_type_handler', ['MTU_MAX=48', 'N_MAX=12'], ['MTU_MAX=128', 'N_MAX=32']), ('read_by_type_handler_wide', ['MTU_MAX=300', 'N_MAX=4'], ['MTU_MAX=320', 'N_MAX=5'])):
   UNITS.append(dict(name=_name, extracts=H_EX, code=H_CODE, object_bits=10, defines=_d, thorough_defines=_t, timeout=900, replay=dict(src='replay/c02_replay.cpp', cxxflags=['-DNDEBUG']),
          enforce=['handle_read_by_type_request_'],
          replace=['ACCESS', 'handle_by_index', 'first_index_by_handle', 'filter_call', 'last_handle_index', 'ca_call', 'check_size_and_handle_range_', 'error_response5_', 'error_response4_']))
